@@ -569,6 +569,19 @@ func (handler *Handler) handleStatementExecute(ctx context.Context, packet *Pack
 	// https://dev.mysql.com/doc/dev/mysql-server/latest/page_protocol_com_stmt_execute.html
 	// we expect list of parameters if the paramsNum > 0
 	if paramsNum := paramsNumber; paramsNum > 0 {
+		// a re-execution comes without the parameter types: complete it with the types of the previous execution
+		originalData := packet.GetData()
+		completed, err := handler.registry.RestoreParameterTypes(packet, strconv.FormatUint(uint64(stmtID), 10), paramsNum)
+		if err != nil {
+			log.WithError(err).Error("Can't parse OnBind parameters")
+			return 0, err
+		}
+		// forward the packet as the client sent it unless the parameters have to be changed
+		defer func() {
+			if completed {
+				packet.SetData(originalData)
+			}
+		}()
 		parameters, err := packet.GetBindParameters(paramsNum)
 		if err != nil {
 			log.WithError(err).Error("Can't parse OnBind parameters")
@@ -593,6 +606,7 @@ func (handler *Handler) handleStatementExecute(ctx context.Context, packet *Pack
 				log.WithError(err).Error("Failed to update Bind packet")
 				return 0, err
 			}
+			completed = false
 		}
 	}
 
